@@ -9,7 +9,6 @@ package main
 import (
 	"encoding/json"
 	"fmt"
-	"math/big"
 	"os"
 
 	"github.com/lyraproj/pcore/pcore"
@@ -84,20 +83,20 @@ func run(p *pool, cfg *lib.Config, res *lib.Result, rng *lib.Rng, only map[strin
 	}
 	// the cases on which D failed are always part of the Coq files: all rows are (the pool is complete)
 	for s := 0; s < shards; s++ {
-		cf := &lib.CasesFile{Imports: imports, Typ: "nat * option (list N) * N", Prelude: prelude,
+		cf := &lib.CasesFile{Imports: imports, Typ: "nat * option (list N) * list N", Prelude: prelude,
 			Obligations: map[string]string{"values_model": "c07_value_mismatches pool cases"}}
 		for k, i := range mi {
 			it := p.items[i]
 			if k%shards != s || (only != nil && !only[it.text]) {
 				continue
 			}
-			row := new(big.Int)
+			var row []string
 			for k2, j := range mi {
 				if ck.eq[i].get(j) {
-					row.SetBit(row, k2, 1)
+					row = append(row, lib.GN(uint64(k2)))
 				}
 			}
-			cf.Add(fmt.Sprintf("(%s, %s, %s%%N)", lib.GNat(k), gKey(it.key, it.keyOK), row.String()),
+			cf.Add(fmt.Sprintf("(%s, %s, %s)", lib.GNat(k), gKey(it.key, it.keyOK), lib.GList(row, "N")),
 				map[string]interface{}{"kind": "row", "vs": []*V{it.d}})
 			if k%97 == 3 {
 				res.Sample(map[string]interface{}{"value": it.text, "key": fmt.Sprintf("%q", it.key), "equal_to": equalTexts(p, ck, i)})
